@@ -329,6 +329,12 @@ func c15(c *an.Ctx) {
 			f.Guarded(r, op, "op-map entry only for a command that returned nil", okPred...)
 			f.Guarded(r, tmp, "tmp-index start advanced only for a command that returned nil", okPred...)
 			f.Guarded(r, tmp, "tmp-index start not advanced by UpdateNodeTmpIndexCommand itself", an.AtomLike(`GetType\(\)==proto\.Command_UpdateNodeTmpIndexCommand$|^proto\.Command_UpdateNodeTmpIndexCommand==`, false))
+			// the batch form applies EVERY command entry of the batch: where raft cuts the committed log into
+			// batches differs per node and on replay, so skipping an entry by looking at its neighbours makes
+			// the outcome depend on the cut (Apply sees each entry alone)
+			if strings.HasSuffix(spec, "ApplyBatch") {
+				f.LoopSelectsAll(r, ex, "every command entry of the batch is executed", an.AtomLike(eqAny(`raft\.LogCommand`), false))
+			}
 		}
 	}
 	// ---------------------------------------------------------------- R5
